@@ -1,4 +1,5 @@
 import Pfst.Gen.C08Families
+import Pfst.Gen.C08Ident
 /-
 Which fix-up follows a put into an expression slot whose delimiters are shared with its statement (no imports except the
 extracted table `Pfst/Gen/C08Families.lean`, regenerated from /repo/src/fst/asttypes.py on every run).
@@ -33,5 +34,10 @@ def annSimpleSpec (targetIsName : Bool) (npars : Nat) : Nat :=
   match targetIsName, npars with
   | true, 0 => 1
   | _, _ => 0
+
+/-- Every identifier normaliser of `code.py` (`code_as_identifier`, `_dotted`, `_star`, `_alias`) returns, for every code
+form (str, list of lines, FST node, pure AST), the NFKC form that CPython will read back from the source it is written to
+(table extracted by running the functions on non-NFKC probe spellings on every run). -/
+def identFormsNormalised : Bool := Pfst.Gen.C08Ident.table.all (fun r => r.2.2)
 
 end Pfst.SharedDelims
